@@ -208,3 +208,58 @@ def run_cmd(cmd, timeout=1800, cwd=None, env=None, stdin=None):
     except subprocess.TimeoutExpired:
         raise Infra('timeout: ' + ' '.join(cmd[:4]))
     return r
+
+
+def validate_trace(specdir, module, cfg_text, trace_path, timeout=1200, extra_files=None, _diag=False):
+    """Run TLC trace validation (module must define Accept and HighWaterPrint constraints; cfg_text must contain the
+    line 'CONSTRAINT Accept' and a '%(diag)s' placeholder). Returns (accepted, detail, stats)."""
+    sd = scratch('trace')
+    try:
+        cfgname = module.replace('.tla', '') + '.cfg'
+        cfgp = os.path.join(sd, cfgname)
+        open(cfgp, 'w').write(cfg_text % {'diag': 'CONSTRAINT HighWaterPrint\n' if _diag else ''})
+        tp = os.path.join(sd, 'trace.ndjson')
+        shutil.copy(trace_path, tp)
+        res = tlc(specdir, module, cfgname, workers=1, timeout=timeout, copy_extra=[cfgp, tp] + list(extra_files or []))
+        try:
+            out = res['out']
+            stats = {'states': res.get('distinct', 0), 'generated': res.get('generated', 0), 'wall_s': round(res['wall'], 1)}
+            m = re.search(r'Invariant ([A-Za-z0-9_]+) is violated', out)
+            if m:
+                # find the trace line at which it happened: last state's l
+                ls = re.findall(r'/\\ l = (\d+)', out)
+                return False, {'kind': 'invariant', 'invariant': m.group(1), 'line': int(ls[-1]) - 1 if ls else 0}, stats
+            m = re.search(r'Action property ([A-Za-z0-9_]+) is violated', out)
+            if m:
+                return False, {'kind': 'invariant', 'invariant': m.group(1), 'line': 0}, stats
+            if 'TRACE-ACCEPTED' in out:
+                return True, {}, stats
+            if 'Model checking completed. No error has been found' in out:
+                if not _diag:
+                    return validate_trace(specdir, module, cfg_text, trace_path, timeout, extra_files, _diag=True)
+                hw = [int(x) for x in re.findall(r'<<"HW", (\d+)>>', out)]
+                ln = max(hw) if hw else 1
+                lines = open(trace_path).read().splitlines()
+                return False, {'kind': 'rejected', 'line': ln, 'event': lines[ln - 1] if ln <= len(lines) else '<end>'}, stats
+            raise Infra('unexpected TLC output in trace validation:\n' + out[-3000:])
+        finally:
+            tlc_cleanup(res)
+    finally:
+        shutil.rmtree(sd, ignore_errors=True)
+
+
+def tla_value(v):
+    """Python -> TLA+ value text."""
+    if isinstance(v, bool):
+        return 'TRUE' if v else 'FALSE'
+    if isinstance(v, int):
+        return str(v)
+    if isinstance(v, str):
+        return '"' + v.replace('\\', '\\\\').replace('"', '\\"') + '"'
+    if isinstance(v, (list, tuple)):
+        return '<<' + ', '.join(tla_value(x) for x in v) + '>>'
+    if isinstance(v, set):
+        return '{' + ', '.join(tla_value(x) for x in sorted(v, key=str)) + '}'
+    if isinstance(v, dict):
+        return '[' + ', '.join('%s |-> %s' % (k, tla_value(x)) for k, x in v.items()) + ']'
+    raise ValueError('cannot render %r' % (v,))
